@@ -346,7 +346,9 @@ fn gen_cell(src: &mut Src, st: &MStack, name: &str, lower: &[MCellT], max_size: 
             if LOOSE_CUTS.with(|c| c.get()) && src.prob(1, 2) {
                 if is_assign {
                     cell.assigns.push((nets[0].to_string(), (l, 0, cl, 0)));
-                } else {
+                } else if st.metals[l].cutsize / 2 > 0 {
+                    // (not where a cut has no extent: should the request be realised after all, at the coordinate of
+                    // an assignment, which of the two abutting pieces "covers" the crossing would be open)
                     cell.cuts.push((l, 0, cl, 0));
                 }
             }
